@@ -1,11 +1,489 @@
-//! (not built yet)
-use serde_json::Value;
-use vcore::Run;
+//! C02 — session setup carries the request faithfully and mirrors the decision.
 
-pub fn run(run: &Run) {
-    run.inconclusive("check not built yet");
+use crate::common::*;
+use proptest::prelude::*;
+use refcodec::qpack as rq;
+use serde::{Deserialize, Serialize};
+use serde_json::Value;
+use std::collections::HashMap;
+use std::net::SocketAddr;
+use std::sync::Arc;
+use std::time::Duration;
+use vcore::{prop_search, Outcome, Run, Search};
+use wire::*;
+use wtransport::endpoint::ConnectOptions;
+use wtransport::error::ConnectingError;
+
+pub const RULE: &str = "case = runtime flavour x URL from normal-form components (host in {127.0.0.1, [::1], generated domains and punycode labels resolved by a harness DnsResolver}, default or explicit port, 0..6 path segments over unreserved / sub-delims / pct-encoded characters, optional query, optional fragment) x 0..12 additional header fields (names: QPACK static-table names and generated tokens with lengths across the 3-bit prefix boundary; values: static-table exact values, visible ASCII with inner SP/HTAB, non-ASCII UTF-8, Huffman-shrinking and non-shrinking strings, lengths 0..2000, whole section < 4096 bytes) x server decision in {accept, accept_with_headers(extra fields), forbidden, not_found, too_many_requests}; variants: wtransport<->wtransport, raw server answering generated 2xx / non-2xx statuses with extra fields, raw client encoding the request with the reference QPACK encoder under generated representation choices. Oracle: the server application sees exactly authority (port elided iff 443), path-with-query, the five fixed pseudo-fields and every additional field, nothing else; connect is Ok iff accepted, SessionRejected iff non-2xx; both ends report the session id of the CONNECT stream. Non-trivial: >= 1 additional header or non-root path or a rejecting decision; distinct = distinct case";
+
+#[derive(Clone, Debug, Serialize, Deserialize, PartialEq)]
+pub enum Decision {
+    Accept,
+    AcceptWithHeaders(Vec<(String, String)>),
+    Forbidden,
+    NotFound,
+    TooManyRequests,
 }
 
-pub fn replay(_run: &Run, _doc: &Value) -> bool {
-    false
+#[derive(Clone, Debug, Serialize, Deserialize)]
+pub struct Case {
+    pub flavor: u8,
+    /// 0 wt<->wt, 1 wt client vs raw server(status), 2 raw client (reference QPACK) vs wt server
+    pub variant: u8,
+    /// 0 IPv4 literal, 1 IPv6 literal, 2 domain (resolved by the harness)
+    pub host_kind: u8,
+    pub domain: String,
+    pub explicit_port: bool,
+    pub path: String,
+    pub query: Option<String>,
+    pub fragment: Option<String>,
+    pub headers: Vec<(String, String)>,
+    pub decision: Decision,
+    /// variant 1: status answered by the raw server and its extra fields
+    pub status: u16,
+    /// variant 2: reference encoder options per field
+    pub enc: Vec<(u8, bool, bool, u8, bool)>,
+}
+
+pub fn header_name() -> impl Strategy<Value = String> {
+    let statics: Vec<String> = rq::STATIC_TABLE.iter().map(|r| r.0.to_string()).filter(|n| !n.starts_with(':')).collect();
+    prop_oneof![
+        3 => proptest::sample::select(statics),
+        4 => "[a-z][a-z0-9-]{0,14}",
+        1 => "[a-z]{6,8}",
+        1 => "x-[a-z0-9!#$%&'*+.^_`|~-]{1,12}",
+        1 => "[a-z0-9-]{130,138}",
+    ]
+}
+
+pub fn header_value() -> impl Strategy<Value = String> {
+    let statics: Vec<String> = rq::STATIC_TABLE.iter().map(|r| r.1.to_string()).collect();
+    prop_oneof![
+        2 => proptest::sample::select(statics),
+        4 => "[!-~]([ -~\t]{0,40}[!-~])?",
+        1 => Just(String::new()),
+        1 => "[a-z]{120,135}",
+        1 => "[a-z][a-z ]{250,260}[a-z]",
+        1 => "[#-&(-+]{100,140}",
+        2 => "[!-~]\\PC{0,30}[!-~]",
+        1 => "[!-~]{900,1900}",
+    ]
+}
+
+fn headers_strategy(max: usize) -> impl Strategy<Value = Vec<(String, String)>> {
+    proptest::collection::vec((header_name(), header_value()), 0..=max).prop_map(|v| {
+        let mut out: Vec<(String, String)> = Vec::new();
+        let mut total = 200usize;
+        for (n, val) in v {
+            if out.iter().any(|(k, _)| *k == n) || total + n.len() + val.len() + 8 > 3600 {
+                continue;
+            }
+            total += n.len() + val.len() + 8;
+            out.push((n, val));
+        }
+        out
+    })
+}
+
+pub fn case_strategy() -> impl Strategy<Value = Case> {
+    let decision = prop_oneof![
+        3 => Just(Decision::Accept),
+        2 => headers_strategy(4).prop_map(Decision::AcceptWithHeaders),
+        1 => Just(Decision::Forbidden),
+        1 => Just(Decision::NotFound),
+        1 => Just(Decision::TooManyRequests),
+    ];
+    (
+        (0u8..3, prop_oneof![3 => Just(0u8), 2 => Just(1u8), 2 => Just(2u8)], 0u8..3),
+        prop_oneof!["[a-z][a-z0-9]{0,8}(\\.[a-z][a-z0-9-]{0,6}[a-z0-9]){0,2}", Just("xn--bcher-kva.example".to_string()), Just("localhost".to_string())],
+        any::<bool>(),
+        prop_oneof![2 => Just("/".to_string()), 4 => "(/[A-Za-z0-9_~!$&'()*+,;=:@-][A-Za-z0-9._~!$&'()*+,;=:@-]{0,7}){1,6}/?", 1 => "(/%[3-7][0-9A-F][a-z]{0,3}){1,3}"],
+        proptest::option::of("[A-Za-z0-9._~!$&()*+,;=:@/?%-]{0,24}"),
+        proptest::option::of("[A-Za-z0-9]{0,6}"),
+        headers_strategy(12),
+        decision,
+        prop_oneof![Just(200u16), Just(204), Just(299), Just(300), Just(199), Just(403), Just(404), Just(429), Just(500), Just(599), 200u16..300, 300u16..600],
+        proptest::collection::vec((0u8..3, any::<bool>(), any::<bool>(), any::<u8>(), any::<bool>()), 17),
+    )
+        .prop_map(|((flavor, variant, host_kind), domain, explicit_port, path, query, fragment, headers, decision, status, enc)| Case { flavor, variant, host_kind, domain, explicit_port, path, query, fragment, headers, decision, status, enc })
+}
+
+#[derive(Debug)]
+struct FixedResolver(SocketAddr);
+
+impl wtransport::config::DnsResolver for FixedResolver {
+    fn resolve(&self, _host: &str) -> std::pin::Pin<Box<dyn wtransport::config::DnsLookupFuture>> {
+        let a = self.0;
+        Box::pin(async move { Ok(Some(a)) })
+    }
+}
+
+/// Builds (url, expected authority, expected path) for a server listening on `addr`.
+pub fn url_of(case: &Case, addr: SocketAddr) -> (String, String, String) {
+    let port = addr.port();
+    let host = match case.host_kind % 3 {
+        0 => "127.0.0.1".to_string(),
+        1 => "[::1]".to_string(),
+        _ => case.domain.clone(),
+    };
+    // literal addresses must carry the real port; domains may use the default port because the
+    // harness resolver points them at the server whatever the port says
+    let with_port = case.explicit_port || case.host_kind % 3 != 2;
+    let authority = if with_port && port != 443 { format!("{host}:{port}") } else { host.clone() };
+    let mut url = format!("https://{authority}{}", case.path);
+    let mut path = case.path.clone();
+    if let Some(q) = &case.query {
+        url.push('?');
+        url.push_str(q);
+        path.push('?');
+        path.push_str(q);
+    }
+    if let Some(f) = &case.fragment {
+        url.push('#');
+        url.push_str(f);
+    }
+    (url, authority, path)
+}
+
+fn nontrivial(case: &Case) -> bool {
+    !case.headers.is_empty() || case.path != "/" || !matches!(case.decision, Decision::Accept | Decision::AcceptWithHeaders(_))
+}
+
+fn bind_addr(case: &Case) -> SocketAddr {
+    if case.host_kind % 3 == 1 {
+        "[::1]:0".parse().unwrap()
+    } else {
+        "127.0.0.1:0".parse().unwrap()
+    }
+}
+
+pub fn wt_client_for(addr: SocketAddr) -> wtransport::Endpoint<wtransport::endpoint::endpoint_side::Client> {
+    let bind: SocketAddr = if addr.is_ipv6() { "[::1]:0".parse().unwrap() } else { "127.0.0.1:0".parse().unwrap() };
+    let mut cfg = wtransport::ClientConfig::builder().with_bind_address(bind).with_no_cert_validation().build();
+    cfg.set_dns_resolver(FixedResolver(addr));
+    wtransport::Endpoint::client(cfg).expect("client endpoint")
+}
+
+/// What the server application saw.
+#[derive(Debug, Clone)]
+pub struct Seen {
+    pub authority: String,
+    pub path: String,
+    pub headers: HashMap<String, String>,
+    pub origin: Option<String>,
+    pub user_agent: Option<String>,
+}
+
+fn check_seen(case: &Case, seen: &Seen, authority: &str, path: &str) -> Result<(), CaseResult> {
+    if seen.authority != authority {
+        return Err(viol("C02:authority", format!("server saw authority {:?}, expected {authority:?}", seen.authority)));
+    }
+    if seen.path != path {
+        return Err(viol("C02:path", format!("server saw path {:?}, expected {path:?}", seen.path)));
+    }
+    let mut want: HashMap<String, String> = HashMap::new();
+    want.insert(":method".into(), "CONNECT".into());
+    want.insert(":scheme".into(), "https".into());
+    want.insert(":protocol".into(), "webtransport".into());
+    want.insert(":authority".into(), authority.into());
+    want.insert(":path".into(), path.into());
+    for (k, v) in &case.headers {
+        want.insert(k.clone(), v.clone());
+    }
+    if seen.headers != want {
+        let missing: Vec<_> = want.iter().filter(|(k, v)| seen.headers.get(*k) != Some(*v)).map(|(k, v)| (k.clone(), short(v.as_bytes()), seen.headers.get(k).map(|x| short(x.as_bytes())))).collect();
+        let extra: Vec<_> = seen.headers.keys().filter(|k| !want.contains_key(*k)).cloned().collect();
+        return Err(viol("C02:fields", format!("request fields differ: wrong/missing (name, sent, seen) {:?}; unexpected {:?}", missing, extra)));
+    }
+    let o = case.headers.iter().find(|(k, _)| k == "origin").map(|(_, v)| v.clone());
+    let ua = case.headers.iter().find(|(k, _)| k == "user-agent").map(|(_, v)| v.clone());
+    if seen.origin != o || seen.user_agent != ua {
+        return Err(viol("C02:accessors", format!("origin()/user_agent() = {:?}/{:?}, expected {:?}/{:?}", seen.origin, seen.user_agent, o, ua)));
+    }
+    Ok(())
+}
+
+async fn exec_wt_wt(case: Arc<Case>) -> CaseResult {
+    let server_ep = wt_server_at(bind_addr(&case), &Tuning::default());
+    let addr = server_ep.local_addr().unwrap();
+    let (url, authority, path) = url_of(&case, addr);
+    let client_ep = wt_client_for(addr);
+    let decision = case.decision.clone();
+    let serve = async {
+        let incoming = server_ep.accept().await;
+        let req = incoming.await.map_err(|e| format!("incoming: {}", conn_err(&e)))?;
+        let seen = Seen { authority: req.authority().to_string(), path: req.path().to_string(), headers: req.headers().clone(), origin: req.origin().map(|s| s.to_string()), user_agent: req.user_agent().map(|s| s.to_string()) };
+        let conn = match decision {
+            Decision::Accept => Some(req.accept().await.map_err(|e| format!("accept: {}", conn_err(&e)))?),
+            Decision::AcceptWithHeaders(h) => Some(req.accept_with_headers(h).await.map_err(|e| format!("accept_with_headers: {}", conn_err(&e)))?),
+            Decision::Forbidden => {
+                req.forbidden().await;
+                None
+            }
+            Decision::NotFound => {
+                req.not_found().await;
+                None
+            }
+            Decision::TooManyRequests => {
+                req.too_many_requests().await;
+                None
+            }
+        };
+        Ok::<_, String>((seen, conn))
+    };
+    let mut opts = ConnectOptions::builder(&url);
+    for (k, v) in &case.headers {
+        opts = opts.add_header(k, v);
+    }
+    let connect = client_ep.connect(opts.build());
+    let (s, c) = tokio::join!(serve, connect);
+    let (seen, server_conn) = match s {
+        Ok(x) => x,
+        Err(e) => return viol("C02:server-failed", format!("server side failed for {url:?} with {} headers: {e}", case.headers.len())),
+    };
+    if let Err(r) = check_seen(&case, &seen, &authority, &path) {
+        return r;
+    }
+    let accepted = server_conn.is_some();
+    match (&c, accepted) {
+        (Ok(conn), true) => {
+            let sc = server_conn.as_ref().unwrap();
+            if conn.session_id() != sc.session_id() || conn.session_id().into_u64() != 0 {
+                return viol("C02:session-id", format!("client session id {}, server {}", conn.session_id(), sc.session_id()));
+            }
+            // the session is usable
+            let echo = async {
+                let mut s = conn.open_uni().await.map_err(|e| conn_err(&e))?.await.map_err(|e| e.to_string())?;
+                s.write_all(b"ping").await.map_err(|e| e.to_string())?;
+                s.finish().await.map_err(|e| e.to_string())?;
+                let mut r = sc.accept_uni().await.map_err(|e| conn_err(&e))?;
+                let mut b = [0u8; 4];
+                r.read_exact(&mut b).await.map_err(|e| e.to_string())?;
+                Ok::<_, String>(b)
+            };
+            match tokio::time::timeout(Duration::from_secs(5), echo).await {
+                Ok(Ok(b)) if &b == b"ping" => {}
+                other => return viol("C02:unusable", format!("accepted session is not usable: {other:?}")),
+            }
+        }
+        (Err(ConnectingError::SessionRejected), false) => {}
+        (Ok(_), false) => return viol("C02:outcome", format!("connect succeeded although the server answered {:?}", case.decision)),
+        (Err(e), true) => return viol("C02:outcome", format!("connect failed with {e} although the server accepted")),
+        (Err(e), false) => return viol("C02:outcome", format!("connect failed with {e} instead of SessionRejected for decision {:?}", case.decision)),
+    }
+    CaseResult::Pass { nontrivial: nontrivial(&case), labels: vec!["variant:wt-wt", decision_label(&case.decision), host_label(&case)] }
+}
+
+fn decision_label(d: &Decision) -> &'static str {
+    match d {
+        Decision::Accept => "decision:accept",
+        Decision::AcceptWithHeaders(_) => "decision:accept-with-headers",
+        Decision::Forbidden => "decision:forbidden",
+        Decision::NotFound => "decision:not-found",
+        Decision::TooManyRequests => "decision:too-many-requests",
+    }
+}
+
+fn host_label(c: &Case) -> &'static str {
+    match c.host_kind % 3 {
+        0 => "host:ipv4",
+        1 => "host:ipv6",
+        _ => "host:domain",
+    }
+}
+
+/// wtransport client against a raw server answering `status` (+ extra fields).
+async fn exec_raw_server(case: Arc<Case>) -> CaseResult {
+    let (raw_ep, addr) = match raw_server(&Tuning::default()) {
+        Ok(x) => x,
+        Err(e) => return CaseResult::Skip(e),
+    };
+    let mut c2 = (*case).clone();
+    c2.host_kind = if case.host_kind % 3 == 1 { 2 } else { case.host_kind }; // the raw server listens on IPv4
+    let (url, authority, path) = url_of(&c2, addr);
+    let client_ep = wt_client_for(addr);
+    let extra = match &case.decision {
+        Decision::AcceptWithHeaders(h) => h.clone(),
+        _ => vec![],
+    };
+    let status = case.status.to_string();
+    let serve = async {
+        let mut s = raw_server_accept(&raw_ep, &default_settings()).await?;
+        s.respond(&status, &extra).await?;
+        Ok::<_, String>(s)
+    };
+    let mut opts = ConnectOptions::builder(&url);
+    for (k, v) in &case.headers {
+        opts = opts.add_header(k, v);
+    }
+    let (s, c) = tokio::join!(serve, client_ep.connect(opts.build()));
+    let s = match s {
+        Ok(s) => s,
+        Err(e) => return viol("C02:request-undecodable", format!("the raw server could not read the request for {url:?}: {e}")),
+    };
+    let seen = Seen {
+        authority: s.request.iter().find(|(k, _)| k == ":authority").map(|(_, v)| v.clone()).unwrap_or_default(),
+        path: s.request.iter().find(|(k, _)| k == ":path").map(|(_, v)| v.clone()).unwrap_or_default(),
+        headers: s.request.iter().cloned().collect(),
+        origin: case.headers.iter().find(|(k, _)| k == "origin").map(|(_, v)| v.clone()),
+        user_agent: case.headers.iter().find(|(k, _)| k == "user-agent").map(|(_, v)| v.clone()),
+    };
+    if s.request.len() != seen.headers.len() {
+        return viol("C02:duplicate-field", format!("request carries a field twice: {:?}", s.request.iter().map(|(k, _)| k).collect::<Vec<_>>()));
+    }
+    if let Err(r) = check_seen(&c2, &seen, &authority, &path) {
+        return r;
+    }
+    let ok2xx = (200..300).contains(&case.status);
+    match (&c, ok2xx) {
+        (Ok(conn), true) => {
+            if conn.session_id().into_u64() != s.session_id {
+                return viol("C02:session-id", format!("client session id {}, CONNECT stream {}", conn.session_id(), s.session_id));
+            }
+        }
+        (Err(ConnectingError::SessionRejected), false) => {}
+        (other, _) => return viol("C02:outcome", format!("status {} with {} extra fields: connect = {:?}", case.status, extra.len(), other.as_ref().map(|_| "Ok").map_err(|e| e.to_string()))),
+    }
+    CaseResult::Pass { nontrivial: nontrivial(&case) || !ok2xx, labels: vec!["variant:raw-server", if ok2xx { "status:2xx" } else { "status:non-2xx" }] }
+}
+
+/// Raw client (reference QPACK encoder, generated representations) against the wtransport server.
+async fn exec_raw_client(case: Arc<Case>) -> CaseResult {
+    let server_ep = wt_server(&Tuning::default());
+    let addr = server_ep.local_addr().unwrap();
+    let mut c2 = (*case).clone();
+    c2.host_kind = if case.host_kind % 3 == 1 { 2 } else { case.host_kind };
+    let (_url, authority, path) = url_of(&c2, addr);
+    let decision = case.decision.clone();
+    let serve = async {
+        let incoming = server_ep.accept().await;
+        let req = incoming.await.map_err(|e| format!("incoming: {}", conn_err(&e)))?;
+        let seen = Seen { authority: req.authority().to_string(), path: req.path().to_string(), headers: req.headers().clone(), origin: req.origin().map(|s| s.to_string()), user_agent: req.user_agent().map(|s| s.to_string()) };
+        let conn = match decision {
+            Decision::Accept => Some(req.accept().await.map_err(|e| conn_err(&e))?),
+            Decision::AcceptWithHeaders(h) => Some(req.accept_with_headers(h).await.map_err(|e| conn_err(&e))?),
+            Decision::Forbidden => {
+                req.forbidden().await;
+                None
+            }
+            Decision::NotFound => {
+                req.not_found().await;
+                None
+            }
+            Decision::TooManyRequests => {
+                req.too_many_requests().await;
+                None
+            }
+        };
+        Ok::<_, String>((seen, conn))
+    };
+    let fields_plain: Vec<(String, String)> = {
+        let mut f = vec![
+            (":method".to_string(), "CONNECT".to_string()),
+            (":scheme".into(), "https".into()),
+            (":protocol".into(), "webtransport".into()),
+            (":authority".into(), authority.clone()),
+            (":path".into(), path.clone()),
+        ];
+        f.extend(case.headers.iter().cloned());
+        f
+    };
+    let fields: Vec<(String, String, rq::EncOpts)> = fields_plain
+        .iter()
+        .enumerate()
+        .map(|(i, (k, v))| {
+            let o = case.enc[i % case.enc.len()];
+            (k.clone(), v.clone(), rq::EncOpts { choice: match o.0 { 0 => rq::Choice::Best, 1 => rq::Choice::NameRef, _ => rq::Choice::Literal }, huffman_name: o.1, huffman_value: o.2, row_sel: o.3, n_bit: o.4 })
+        })
+        .collect();
+    let client = async {
+        let (ep, conn) = raw_connect(addr, &Tuning::default()).await?;
+        let control = open_control(&conn, &default_settings()).await?;
+        let (mut rs, mut rr) = conn.open_bi().await.map_err(|e| e.to_string())?;
+        let sid = quinn::VarInt::from(rs.id()).into_inner();
+        rs.write_all(&headers_frame(&fields)).await.map_err(|e| e.to_string())?;
+        let mut buf = Vec::new();
+        let (_, payload) = read_frame_of(&mut rr, &mut buf, &[refcodec::registry::FRAME_HEADERS], Duration::from_secs(5)).await?;
+        let resp = decode_fields(&payload)?;
+        Ok::<_, String>((ep, conn, control, rs, rr, sid, resp))
+    };
+    let (s, c) = tokio::join!(serve, client);
+    let (seen, server_conn) = match s {
+        Ok(x) => x,
+        Err(e) => return viol("C02:server-failed", format!("server side failed on a request encoded by the reference QPACK encoder: {e}")),
+    };
+    if let Err(r) = check_seen(&c2, &seen, &authority, &path) {
+        return r;
+    }
+    let (_ep, _conn, _control, _rs, _rr, sid, resp) = match c {
+        Ok(x) => x,
+        Err(e) => return viol("C02:response-undecodable", format!("raw client could not read the response: {e}")),
+    };
+    let status = resp.iter().find(|(k, _)| k == ":status").map(|(_, v)| v.clone());
+    let want_status = match &case.decision {
+        Decision::Accept | Decision::AcceptWithHeaders(_) => "200",
+        Decision::Forbidden => "403",
+        Decision::NotFound => "404",
+        Decision::TooManyRequests => "429",
+    };
+    if status.as_deref() != Some(want_status) {
+        return viol("C02:response-status", format!("decision {:?} produced :status {:?}", case.decision, status));
+    }
+    if let Decision::AcceptWithHeaders(h) = &case.decision {
+        for (k, v) in h {
+            if resp.iter().find(|(n, _)| n == k).map(|(_, x)| x) != Some(v) {
+                return viol("C02:response-fields", format!("extra response field {k:?} missing or altered"));
+            }
+        }
+    }
+    if let Some(sc) = &server_conn {
+        if sc.session_id().into_u64() != sid {
+            return viol("C02:session-id", format!("server session id {}, CONNECT stream {sid}", sc.session_id()));
+        }
+    }
+    CaseResult::Pass { nontrivial: nontrivial(&case), labels: vec!["variant:raw-client", decision_label(&case.decision)] }
+}
+
+pub fn exec(case: &Case) -> CaseResult {
+    let c = Arc::new(case.clone());
+    let fut = async move {
+        match c.variant % 3 {
+            0 => exec_wt_wt(c).await,
+            1 => exec_raw_server(c).await,
+            _ => exec_raw_client(c).await,
+        }
+    };
+    match run_on(case.flavor, Duration::from_secs(20), fut) {
+        Some(r) => r,
+        None => CaseResult::Timeout("case did not finish in 20 s".into()),
+    }
+}
+
+pub fn run(run: &Run) {
+    run.set_rule(RULE);
+    run.assume("field names are lower-case RFC 9110 tokens not starting with ':'; values have no leading/trailing whitespace and no CR/LF/NUL; the encoded section stays below the peer's 4096-byte parse cap; URLs are in WHATWG-normalised form");
+    prop_search(
+        run,
+        Search { check: "session-setup", cases: run.tier.pick(400, 6000), workers: 8, max_shrink_iters: 200 },
+        case_strategy,
+        |c| judge(|| exec(c), false, "C02:hang"),
+        |c| serde_json::to_value(c).unwrap(),
+    );
+    for l in ["variant:wt-wt", "variant:raw-server", "variant:raw-client", "decision:accept", "decision:accept-with-headers", "decision:forbidden", "decision:not-found", "decision:too-many-requests", "host:ipv4", "host:ipv6", "host:domain", "status:2xx", "status:non-2xx"] {
+        run.essential(l);
+    }
+}
+
+pub fn replay(run: &Run, doc: &Value) -> bool {
+    let Ok(case) = serde_json::from_value::<Case>(doc["case"].clone()) else {
+        return false;
+    };
+    run.eval("session-setup", true, 1);
+    for _ in 0..3 {
+        if let Outcome::Fail { signature, message } = judge(|| exec(&case), false, "C02:hang") {
+            run.fail("session-setup", &signature, &message, doc["case"].clone());
+            break;
+        }
+    }
+    true
 }
